@@ -173,7 +173,7 @@ def run(ctx):
                 allowed.add((r.src_of(b2), blk.get("obb", b2)))
     n = 0
     for g2, bb2, t2 in facts.all_calls(lambda t: call_matches(t, RR.RAW_PRINT)):
-        if g2.id.startswith("test::") or g2.file.endswith("response.rs"):
+        if g2.id.startswith("test::") or g2.file == facts.adt(RESP)["file"]:
             continue
         sc = {x[1] for x in origin_walk(g2.origin(t2["args"][0])) if x[0] == "const" and isinstance(x[1], int) and not isinstance(x[1], bool) and 100 <= x[1] <= 599}
         if sc and all(c <= 199 for c in sc):
